@@ -719,6 +719,9 @@ pub fn damage(ren: &Rendering, fragment: bool) -> Vec<(String, usize, String)> {
                       ins(e.attrs_at, &format!(" xml:{l}='{v1}' dx:{l}='{v2}' xmlns:dx='http://www.w3.org/XML/1998/namespace'"))));
         }
         out.push(("prefix-declared-twice".into(), e.attrs_at, ins(e.attrs_at, " xmlns:dd='urn:u1' xmlns:dd='urn:u2'")));
+        // Namespaces in XML 1.0, "No Prefix Undeclaring": only the default namespace can be undeclared
+        out.push(("prefix-undeclared".into(), e.attrs_at, ins(e.attrs_at, " xmlns:ud=''")));
+        out.push(("prefix-undeclared".into(), e.attrs_at, ins(e.attrs_at, " xmlns:ud=\"\" ud:k='v'")));
         out.push(("default-namespace-declared-twice".into(), e.attrs_at, ins(e.attrs_at, " xmlns='urn:u1' xmlns='urn:u1'")));
         out.push(("raw-lt-in-attribute".into(), e.attrs_at, ins(e.attrs_at, " lt='a<b'")));
         out.push(("raw-amp-in-attribute".into(), e.attrs_at, ins(e.attrs_at, " amp='a & b'")));
@@ -755,6 +758,10 @@ pub fn damage(ren: &Rendering, fragment: bool) -> Vec<(String, usize, String)> {
             out.push(("comment-ending-in-hyphen".into(), c, ins(c, "<!-- a --->")));
             out.push(("cdata-end-in-text".into(), c, ins(c, "a]]>b")));
             out.push(("xml-declaration-in-content".into(), c, ins(c, "<?xml version='1.0'?>")));
+            // Namespaces in XML 1.0: no colon in a processing instruction target
+            for bad in ["<?a:b c?>", "<?:a?>", "<?p:q?>"] {
+                out.push((format!("colon-in-pi-target:{}", bad), c, ins(c, bad)));
+            }
             // PI ::= '<?' PITarget (S (Char* - (Char* '?>' Char*)))? '?>': white space between the target and what follows it
             for bad in ["<?a+b?>", "<?a?b?>", "<?a<b?>", "<?a\u{e9}=1?>", "<?pi<?xml version='1.0'?>"] {
                 out.push((format!("pi-without-space-after-target:{}", bad.escape_default()), c, ins(c, bad)));
